@@ -2158,6 +2158,13 @@ package apd
 //@ define InfText(s: []byte, p: int): bool = (len(s) == p + 3 && CI(s, p, 105) && CI(s, p + 1, 110) && CI(s, p + 2, 102)) || (len(s) == p + 8 && CI(s, p, 105) && CI(s, p + 1, 110) && CI(s, p + 2, 102) && CI(s, p + 3, 105) && CI(s, p + 4, 110) && CI(s, p + 5, 105) && CI(s, p + 6, 116) && CI(s, p + 7, 121))
 //@ define NanText(s: []byte, p: int, haspay: bool, z: int, C: int): bool = CI(s, p, 110) && CI(s, p + 1, 97) && CI(s, p + 2, 110) && ite(haspay, z >= 0 && C >= 0 && len(s) == p + 3 + z + nd10(C) && mseg(s, p + 3, z, C, 0, z + nd10(C)), len(s) == p + 3)
 //@ define SnanText(s: []byte, p: int, haspay: bool, z: int, C: int): bool = CI(s, p, 115) && CI(s, p + 1, 110) && CI(s, p + 2, 97) && CI(s, p + 3, 110) && ite(haspay, z >= 0 && C >= 0 && len(s) == p + 4 + z + nd10(C) && mseg(s, p + 4, z, C, 0, z + nd10(C)), len(s) == p + 4)
+// Rejection (one class): an ASCII text that contains a character that occurs in no numeric string - not a digit, a sign,
+// a point or a letter - is rejected.
+//@ define Ascii(s: []byte): bool = forall k in 0..len(s)-1: s[k] < 128
+//@ define LC(c: int): int = ite(65 <= c && c <= 90, c + 32, c)
+//@ define IsLetter(c: int): bool = (65 <= c && c <= 90) || (97 <= c && c <= 122)
+//@ define NumStart(s: []byte): bool = len(s) > 0 && ite(s[0] == 43 || s[0] == 45, len(s) > 1 && ((48 <= s[1] && s[1] <= 57) || s[1] == 46), (48 <= s[0] && s[0] <= 57) || s[0] == 46)
+//@ define BadChar(c: int): bool = 0 <= c && c < 128 && !(48 <= c && c <= 57) && c != 43 && c != 45 && c != 46 && !(65 <= c && c <= 90) && !(97 <= c && c <= 122)
 //@ define GramFrac(z: int, C: int, dot: bool, a: int): int = ite(dot, z + nd10(C) - a, 0)
 //@ define GramExp(z: int, C: int, dot: bool, a: int, hase: bool, esg: int, X: int): int = ite(hase, ite(esg == 45, -X, X), 0) - GramFrac(z, C, dot, a)
 // FinText: s is the text the formatter writes for the finite decimal (neg, C, E): plain notation (exponent <= 0) or scientific
@@ -2175,7 +2182,7 @@ package apd
 //@   props C04 C06 C01 C07 C13 C14
 //@   requires writable(d) && c != nil
 //@   assigns d
-//@   ghost gneg: bool, gC: int, gE: int, gech: int, gplus: bool, gz: int, ga: int, gdot: bool, ghase: bool, gesg: int, gez: int, gX: int
+//@   ghost gneg: bool, gC: int, gE: int, gech: int, gplus: bool, gz: int, ga: int, gdot: bool, ghase: bool, gesg: int, gez: int, gX: int, gk: int
 // Every grammatical finite numeric string (C14): accepted, with the sign, coefficient and exponent it denotes, when the
 // written exponent and the number of fraction digits are within +-100000 and the value lies inside the context's limits.
 //@   assert before (*Decimal).setExponent#1: {C14} [exps_gr0] ctxsane(c) && GramText(bytes(orig), gneg, gplus, gz, gC, gdot, ga, ghase, gech, gesg, gez, gX) && gX <= 100000 && !gdot && !ghase ==> len(exps) == 0 && val(d.Coeff) == gC
@@ -2198,6 +2205,10 @@ package apd
 //@   ensures {C14} [gr_fin3b] ctxsane(c) && GramText(bytes(s), gneg, gplus, gz, gC, gdot, ga, ghase, gech, gesg, gez, gX) && gX <= 100000 && GramFrac(gz, gC, gdot, ga) <= 100000 && inlimits0(c, gC, GramExp(gz, gC, gdot, ga, ghase, gesg, gX)) && gdot && ghase ==> d.Form == Finite && d.Negative == gneg
 //@   ensures {C14} [gr_fin3c] ctxsane(c) && GramText(bytes(s), gneg, gplus, gz, gC, gdot, ga, ghase, gech, gesg, gez, gX) && gX <= 100000 && GramFrac(gz, gC, gdot, ga) <= 100000 && inlimits0(c, gC, GramExp(gz, gC, gdot, ga, ghase, gesg, gX)) && gdot && ghase ==> val(d.Coeff) == gC
 //@   ensures {C14} [gr_fin3d] ctxsane(c) && GramText(bytes(s), gneg, gplus, gz, gC, gdot, ga, ghase, gech, gesg, gez, gX) && gX <= 100000 && GramFrac(gz, gC, gdot, ga) <= 100000 && inlimits0(c, gC, GramExp(gz, gC, gdot, ga, ghase, gesg, gX)) && gdot && ghase ==> d.Exponent == GramExp(gz, gC, gdot, ga, ghase, gesg, gX)
+//@   assert before strconv.ParseInt#1: {C14} [rejw_exp] Ascii(bytes(orig)) && 0 <= gk && gk < len(bytes(orig)) && gk - (len(bytes(orig)) - len(bytes(now(s)))) > i ==> bytes(arg0)[gk - (len(bytes(orig)) - len(bytes(now(s)))) - i - 1] == LC(bytes(orig)[gk])
+//@   assert before (*BigInt).SetString#1: {C14} [rejw_mant] Ascii(bytes(orig)) && NumStart(bytes(orig)) && 0 <= gk && gk < len(bytes(orig)) && IsLetter(bytes(orig)[gk]) && bytes(orig)[gk] != 69 && bytes(orig)[gk] != 101 ==> bytes(now(s))[gk - ite(bytes(orig)[0] == 43 || bytes(orig)[0] == 45, 1, 0)] == LC(bytes(orig)[gk]) || bytes(now(s))[gk - ite(bytes(orig)[0] == 43 || bytes(orig)[0] == 45, 1, 0) - 1] == LC(bytes(orig)[gk])
+//@   ensures {C14} [rej_letter] Ascii(bytes(s)) && NumStart(bytes(s)) && 0 <= gk && gk < len(bytes(s)) && IsLetter(bytes(s)[gk]) && bytes(s)[gk] != 69 && bytes(s)[gk] != 101 ==> ret1 != nil
+//@   ensures {C14} [rej_char] Ascii(bytes(s)) && 0 <= gk && gk < len(bytes(s)) && BadChar(bytes(s)[gk]) ==> ret1 != nil
 //@   ensures {C14} [gr_inf] SgnText(bytes(s), gneg, gplus) && InfText(bytes(s), ite(gneg || gplus, 1, 0)) ==> ret1 == nil && ret0 == 0 && d.Form == Infinite && d.Negative == gneg && val(d.Coeff) == 0 && d.Exponent == 0
 //@   ensures {C14} [gr_nan] SgnText(bytes(s), gneg, gplus) && NanText(bytes(s), ite(gneg || gplus, 1, 0), gdot, gz, gC) && gC < 18446744073709551616 ==> ret1 == nil && ret0 == 0 && d.Form == NaN && d.Negative == gneg && val(d.Coeff) == 0 && d.Exponent == 0
 //@   ensures {C14} [gr_snan] SgnText(bytes(s), gneg, gplus) && SnanText(bytes(s), ite(gneg || gplus, 1, 0), gdot, gz, gC) && gC < 18446744073709551616 ==> ret1 == nil && ret0 == 0 && d.Form == NaNSignaling && d.Negative == gneg && val(d.Coeff) == 0 && d.Exponent == 0
